@@ -69,7 +69,7 @@ func init() {
 		Doc: "every single-bit flip of every byte of every handshake act (small auth payload), for v2 XX and KK (thorough: also v0 and v1 XX)",
 	})
 	simrt.Register(&simrt.Scenario{
-		Prop: "C04", Name: "rewrites-random", Count: tiered(3000, 40000),
+		Prop: "C04", Name: "rewrites-random", Count: tiered(3000, 320000),
 		Run: c04Random, MaxOps: 1 << 20, Horizon: time.Hour,
 		Doc: "random multi-byte rewrites, act replays / swaps / truncations / extensions by the man in the middle, random configuration and payload size",
 	})
